@@ -2,11 +2,12 @@ import QipVerif.Util.GateIO
 import QipVerif.Gen.DeviceTables
 /-! Driver for the model of `ModelProcessor.transpile` (C13).
 
-* `transpile dev=<device> n=N [pre=0|1] gates=<list>` → `ok <list>` | `err route:<kind>` | `err decomp:<kind>`
-  (`pre` overrides the regenerated `Gen.preDecompose`; gate syntax of `Util/GateIO.lean`)
+* `transpile dev=<device> n=N [m=M] [pre=0|1] gates=<list>` → `ok <list>` | `err route:<kind>` | `err decomp:<kind>`
+  | `err size`  (`n` = `qc.N`, `m` = `processor.num_qubits`, default `n`; `pre` overrides the regenerated
+  `Gen.preDecompose`; gate syntax of `Util/GateIO.lean`)
 * `route setup=linear|circular n=N gates=<list>` → the routing stage alone
 * `tables` → the regenerated device tables:
-  `pre=<0|1> <device>=<native names,…|None>:<linear|circular|other|none> …`
+  `pre=<0|1> guard=<0|1> <device>=<native names,…|None>:<setup>:<setup when qc.N < num_qubits> …`
 * `coupled dev=<device> n=N gates=<list>` → `1`/`0` per gate (the model's coupling predicate)
 -/
 open QipVerif QipVerif.Proto QipVerif.GateIO QipVerif.Transpile
@@ -43,9 +44,11 @@ def step (line : String) : String :=
     match (fStr? fs "dev").bind dev?, fNat? fs "n", (fStr? fs "gates").bind gates? with
     | some d, some n, some gs =>
       let pre := match fNat? fs "pre" with | some k => k != 0 | none => Gen.preDecompose
-      match transpileV Gen.tables pre (Gen.deviceSpec d) n gs with
+      let m := (fNat? fs "m").getD n
+      match transpileD Gen.tables pre Gen.sizeGuard (Gen.deviceSpec d) (Gen.deviceSpecSmall d) m n gs with
       | .ok out => "ok " ++ showGates out
-      | .error e => showErr e
+      | .error .size => "err size"
+      | .error (.inner e) => showErr e
     | _, _, _ => "bad-op"
   | some "route" =>
     match fStr? fs "setup", fNat? fs "n", (fStr? fs "gates").bind gates? with
@@ -61,8 +64,9 @@ def step (line : String) : String :=
       "ok " ++ ",".intercalate (gs.map fun g => if gateCoupledB (Gen.deviceSpec d).topo n g then "1" else "0")
     | _, _, _ => "bad-op"
   | some "tables" =>
-    s!"pre={if Gen.preDecompose then 1 else 0} " ++
-      " ".intercalate (devices.map fun (nm, d) => nm ++ "=" ++ showSpec (Gen.deviceSpec d))
+    s!"pre={if Gen.preDecompose then 1 else 0} guard={if Gen.sizeGuard then 1 else 0} " ++
+      " ".intercalate (devices.map fun (nm, d) =>
+        nm ++ "=" ++ showSpec (Gen.deviceSpec d) ++ ":" ++ showSetup (Gen.deviceSpecSmall d).topo)
   | _ => "bad-op"
 
 def main : IO Unit := serve step
